@@ -48,6 +48,27 @@ T_New ==
   /\ rfc' = [prior |-> <<>>, pending |-> <<>>, first |-> TRUE]
   /\ macs' = <<>> /\ fl' = NoMsg /\ pre' = <<>> /\ g' = G0
 
+\* Key::new / Key::generate with arbitrary lengths (-1 = None)
+T_KeyNew ==
+  /\ IsEv("key_new")
+  /\ LET r == KeyNewStep(Ev.alg, Ev.min, Ev.sign)
+     IN /\ r.res = Ev.res /\ r.minlen = Ev.minlen /\ r.slen = Ev.slen
+        \* RFC 8945 5.2.2.1, whatever the transcription says
+        /\ (Ev.res = "Ok" => RfcLenOk(Ev.alg, Ev.minlen) /\ RfcLenOk(Ev.alg, Ev.slen))
+  /\ UNCHANGED <<k, cli, srv, rfc, macs, fl, pre, g>>
+\* Algorithm::from_name / FromStr: a name maps to an algorithm only if it is
+\* that algorithm's name (`back': to_name / Display give the name back)
+T_AlgName ==
+  /\ IsEv("alg_name")
+  /\ Ev.res \in AlgFromNameRfc(Ev.name) /\ Ev.back
+  /\ (AlgFromName(Ev.name) # "none" => Ev.res = AlgFromName(Ev.name))
+  /\ UNCHANGED <<k, cli, srv, rfc, macs, fl, pre, g>>
+T_AlgStr ==
+  /\ IsEv("alg_str")
+  /\ Ev.res \in AlgFromStrRfc(Ev.s) /\ Ev.back
+  /\ (AlgFromStr(Ev.s) # "none" => Ev.res = AlgFromStr(Ev.s))
+  /\ UNCHANGED <<k, cli, srv, rfc, macs, fl, pre, g>>
+
 \* layout + encoding of a signing step r against the event
 Signed(r) == r.data = Ev.digest /\ Wire(r.msg) = Ev.wire
 
@@ -153,7 +174,7 @@ T_CDone ==
   /\ ClientDoneRes(cli) = Ev.res
   /\ UNCHANGED <<k, cli, srv, rfc, macs, fl, pre, g>>
 
-TNext == T_New \/ T_CRequest \/ T_Net \/ T_SRequest \/ T_SError \/ T_SAnswer
+TNext == T_New \/ T_KeyNew \/ T_AlgName \/ T_AlgStr \/ T_CRequest \/ T_Net \/ T_SRequest \/ T_SError \/ T_SAnswer
          \/ T_RfcAnswer \/ T_RfcUnsigned \/ T_CAnswer \/ T_CDone
 TSpec == TInit /\ [][TNext]_tvars
 
